@@ -4,7 +4,7 @@ path/def-use rules see."""
 import ast
 
 from mmsa import core, dataflow
-from mmsa.core import norm, walk_no_nested
+from mmsa.core import dotted, norm, walk_no_nested
 
 _counter = [0]
 
@@ -16,18 +16,21 @@ def _simple_arg(e):
 
 
 def inlinable(h):
-  """Helper with no early return: the only return is the last top-level statement."""
+  """'value' for a helper whose only return is its last top-level statement, 'procedure' for one without any
+  return statement, else None (early returns, generators, *args)."""
   body = [s for s in h.node.body if not (isinstance(s, ast.Expr) and isinstance(s.value, ast.Constant))]
-  if not body or not isinstance(body[-1], ast.Return) or body[-1].value is None:
-    return False
-  rets = [s for s in walk_no_nested(h.node) if isinstance(s, ast.Return)]
-  if len(rets) != 1:
-    return False
+  if not body:
+    return None
   if any(isinstance(s, (ast.Yield, ast.YieldFrom, ast.Global, ast.Nonlocal)) for s in walk_no_nested(h.node)):
-    return False
+    return None
   if h.node.args.vararg or h.node.args.kwarg:
-    return False
-  return True
+    return None
+  rets = [s for s in walk_no_nested(h.node) if isinstance(s, ast.Return)]
+  if not rets:
+    return 'procedure'
+  if len(rets) == 1 and isinstance(body[-1], ast.Return) and body[-1].value is not None:
+    return 'value'
+  return None
 
 
 def _instantiate(h, call, selfname, tag):
@@ -87,6 +90,8 @@ def _instantiate(h, call, selfname, tag):
     return dataflow._map_children(e, sub)
 
   body = [s for s in h.node.body if not (isinstance(s, ast.Expr) and isinstance(s.value, ast.Constant))]
+  if inlinable(h) == 'procedure':
+    return pre + [sub(dataflow.clone(s)) for s in body], None
   stmts = pre + [sub(dataflow.clone(s)) for s in body[:-1]]
   result = sub(dataflow.clone(body[-1].value))
   return stmts, result
@@ -123,6 +128,7 @@ def inline_function(repo, f, want, max_rounds=3):
         elif isinstance(st, (ast.If, ast.While)):
           exprs = []   # inlining into loop/if tests would change evaluation points; not needed here
         pre_all = []
+        drop_stmt = [False]
         for root in exprs:
           for callnode in [c for c in ast.walk(root) if isinstance(c, ast.Call)]:
             fn = callnode.func
@@ -135,12 +141,20 @@ def inline_function(repo, f, want, max_rounds=3):
               if inst is None:
                 continue
               stmts_h, result = inst
+              if result is None:
+                # a procedure: only when the call is the whole statement
+                if isinstance(st, ast.Expr) and st.value is callnode:
+                  pre_all += stmts_h
+                  drop_stmt[0] = True
+                  changed[0] = True
+                continue
               pre_all += stmts_h
               # replace the call node in place
               _replace(root, callnode, result)
               changed[0] = True
         out += pre_all
-        out.append(st)
+        if not drop_stmt[0]:
+          out.append(st)
       return out
     node.body = process_block(node.body)
     if not changed[0]:
@@ -175,3 +189,621 @@ def _replace(root, old, new):
 def builds_designs(h):
   t = norm(h.node)
   return 'TBRMMDesign(' in t or '.push(' in t or 'TBRMMScore(' in t
+
+
+# -- expression-level inlining ----------------------------------------------------------------
+def _single_return_expr(h):
+  body = [s for s in h.node.body if not (isinstance(s, ast.Expr) and isinstance(s.value, ast.Constant))]
+  if len(body) == 1 and isinstance(body[0], ast.Return) and body[0].value is not None:
+    return body[0].value
+  return None
+
+
+def _resolve_simple_callee(f, call):
+  """FuncInfo of a nested closure (of f or its enclosing functions) or a same-class method/static method."""
+  fn = call.func
+  if isinstance(fn, ast.Name):
+    top = f
+    while top is not None:
+      if fn.id in top.nested:
+        return top.nested[fn.id]
+      top = top.outer
+    return None
+  cls = f.cls
+  if cls is not None and isinstance(fn, ast.Attribute) and isinstance(fn.value, ast.Name) and fn.attr in cls.methods:
+    selfn = None
+    top = f
+    while top is not None:
+      if top.params and top.kind in ('method', 'getter', 'setter'):
+        selfn = top.params[0]
+      top = top.outer
+    if fn.value.id in (selfn, cls.name):
+      return cls.methods[fn.attr]
+  return None
+
+
+def inline_expr(f, e, depth=3):
+  """Copy of expression e in which calls to single-expression closures / same-class helpers are replaced by their
+  body (parameters substituted), and `*helper(...)` star-arguments of tuple-returning helpers are spread."""
+  e = dataflow.clone(e)
+
+  def expand_args(args):
+    out = []
+    for a in args:
+      if isinstance(a, ast.Starred) and isinstance(a.value, ast.Call):
+        inner = subst_call(a.value, depth - 1)
+        if isinstance(inner, ast.Tuple):
+          out += list(inner.elts)
+          continue
+      out.append(a)
+    return out
+
+  def subst_call(call, d):
+    if d <= 0:
+      return call
+    h = _resolve_simple_callee(f, call)
+    if h is None:
+      return call
+    body = _single_return_expr(h)
+    if body is None or call.keywords and any(k.arg is None for k in call.keywords):
+      return call
+    params = h.params[1:] if h.kind in ('method',) else h.params
+    args = expand_args(call.args)
+    if len(args) > len(params):
+      return call
+    bind = dict(zip(params, args))
+    for k in call.keywords:
+      bind[k.arg] = k.value
+    if set(params) - set(bind):
+      return call
+    selfname = h.params[0] if h.kind == 'method' and h.params else None
+
+    def sub(x):
+      if isinstance(x, ast.Name) and isinstance(x.ctx, ast.Load) and x.id in bind:
+        return dataflow.clone(bind[x.id])
+      return dataflow._map_children(x, sub)
+    new = sub(dataflow.clone(body))
+    return walk(new, d - 1)
+
+  def walk(x, d):
+    if isinstance(x, ast.Call):
+      x.args = expand_args([walk(a, d) if not isinstance(a, ast.Starred) else a for a in x.args])
+      for k in x.keywords:
+        k.value = walk(k.value, d)
+      return subst_call(x, d)
+    if isinstance(x, ast.AST):
+      return dataflow._map_children(x, lambda c: walk(c, d))
+    return x
+  return walk(e, depth)
+
+
+# -- whole-repository flattening of helpers that are not anchors ---------------------------------
+# Every rule is anchored at functions that exist at the pinned commit (mmsa/pinned_names.json).  A function that is not
+# in that table was introduced by a later change (an "extract helper" refactoring, or a change hiding a defect in a new
+# helper); its calls are inlined into the anchors so that the rules see one body, exactly as before the extraction.
+def _tail_expr(stmts):
+  """Expression equal to the value returned by a statement list made only of returns and if/else of returns."""
+  if not stmts:
+    return None
+  st = stmts[0]
+  if isinstance(st, ast.Return) and st.value is not None:
+    return st.value
+  if isinstance(st, ast.If):
+    a = _tail_expr(st.body)
+    b = _tail_expr(list(st.orelse) + list(stmts[1:]))
+    if a is not None and b is not None:
+      return ast.IfExp(test=st.test, body=a, orelse=b)
+  return None
+
+
+def _tail_stmts(stmts, make):
+  """The return tail as structured statements: `if c: return A` + `return B` -> `if c: make(A) else: make(B)`."""
+  st = stmts[0]
+  if isinstance(st, ast.Return):
+    return [make(st.value)]
+  return [ast.If(test=st.test, body=_tail_stmts(st.body, make), orelse=_tail_stmts(list(st.orelse) + list(stmts[1:]), make),
+                 lineno=st.lineno, col_offset=st.col_offset)]
+
+
+def _strip_doc(body):
+  return [s for s in body if not (isinstance(s, ast.Expr) and isinstance(s.value, ast.Constant))]
+
+
+class _NotStructured(Exception):
+  pass
+
+
+def _has_return(st):
+  return any(isinstance(x, ast.Return) for x in walk_no_nested(st)) if not isinstance(st, (ast.FunctionDef, ast.ClassDef)) else False
+
+
+def _eliminate_bare_returns(stmts):
+  """Statement list equivalent to `stmts` of a procedure, without `return`: `if c: return` + REST -> `if c: pass else: REST`."""
+  def elim(lst):
+    """(new statements, terminated) - terminated when control never falls off the end of the list."""
+    out = []
+    for i, st in enumerate(lst):
+      if isinstance(st, ast.Return):
+        return out, True
+      if isinstance(st, ast.If) and _has_return(st):
+        b, bt = elim(st.body)
+        o, ot = elim(st.orelse)
+        rest, rt = elim(lst[i + 1:])
+        if bt and ot:
+          new = ast.If(test=st.test, body=b or [ast.Pass()], orelse=o, lineno=st.lineno, col_offset=st.col_offset)
+          return out + [new], True
+        if bt:
+          new = ast.If(test=st.test, body=b or [ast.Pass()], orelse=o + rest, lineno=st.lineno, col_offset=st.col_offset)
+          return out + [new], rt
+        if ot:
+          new = ast.If(test=st.test, body=b + rest or [ast.Pass()], orelse=o or [ast.Pass()], lineno=st.lineno, col_offset=st.col_offset)
+          return out + [new], rt
+        raise _NotStructured()
+      if _has_return(st):
+        raise _NotStructured()
+      out.append(st)
+    return out, False
+  return elim(stmts)[0]
+
+
+def _falls_through(stmts):
+  """Control can reach the end of the statement list (conservative: True unless it ends in return/raise)."""
+  if not stmts:
+    return True
+  last = stmts[-1]
+  if isinstance(last, (ast.Return, ast.Raise)):
+    return False
+  if isinstance(last, ast.If):
+    return _falls_through(last.body) or _falls_through(last.orelse)
+  if isinstance(last, ast.Try) and not last.orelse and not last.finalbody:
+    return _falls_through(last.body) or any(_falls_through(hd.body) for hd in last.handlers)
+  return True
+
+
+def _structured_body(stmts, make):
+  """`stmts` with every `return v` replaced by make(v), for bodies in which nothing runs after a return:
+  returns are the last statement of if/else branches and try bodies (code following a branching statement is
+  moved into the branches that fall through)."""
+  out = []
+  for i, st in enumerate(stmts):
+    if isinstance(st, ast.Return):
+      if st.value is None:
+        raise _NotStructured()
+      return out + [make(st.value)]
+    if not _has_return(st):
+      out.append(st)
+      continue
+    rest = list(stmts[i + 1:])
+    if isinstance(st, ast.If):
+      body = _structured_body(list(st.body) + (rest if _falls_through(st.body) else []), make)
+      orelse = _structured_body(list(st.orelse) + (rest if _falls_through(st.orelse) else []), make)
+      return out + [ast.If(test=st.test, body=body or [ast.Pass()], orelse=orelse, lineno=st.lineno, col_offset=st.col_offset)]
+    if isinstance(st, ast.Try) and not st.orelse and not st.finalbody:
+      if _falls_through(st.body) or any(_falls_through(hd.body) for hd in st.handlers):
+        if rest:
+          raise _NotStructured()
+      new = ast.Try(body=_structured_body(list(st.body), make),
+                    handlers=[ast.ExceptHandler(type=hd.type, name=hd.name, body=_structured_body(list(hd.body), make),
+                                                lineno=hd.lineno, col_offset=hd.col_offset) for hd in st.handlers],
+                    orelse=[], finalbody=[], lineno=st.lineno, col_offset=st.col_offset)
+      return out + [new]
+    raise _NotStructured()
+  return out
+
+
+def helper_shape(h):
+  """('expr', prefix, expr) | ('proc', stmts, None) | ('gen', stmts, None) | None."""
+  body = _strip_doc(h.node.body)
+  if not body:
+    return None
+  a = h.node.args
+  if a.vararg or a.kwarg:
+    return None
+  inner = list(walk_no_nested(h.node))
+  if any(isinstance(s, (ast.Global, ast.Nonlocal)) for s in inner):
+    return None
+  rets = [s for s in inner if isinstance(s, ast.Return)]
+  if any(isinstance(s, (ast.Yield, ast.YieldFrom)) for s in inner):
+    if rets:
+      return None
+    return ('gen', body, None)
+  if not rets:
+    return ('proc', body, None)
+  if all(r.value is None or (isinstance(r.value, ast.Constant) and r.value.value is None) for r in rets):
+    try:
+      return ('proc', _eliminate_bare_returns([dataflow.clone(x) for x in body]) or [ast.Pass()], None)
+    except _NotStructured:
+      return None
+  # longest prefix without returns, then a pure return tail
+  k = 0
+  while k < len(body) and not any(isinstance(s, ast.Return) for s in walk_no_nested(body[k])) \
+      and not isinstance(body[k], (ast.FunctionDef, ast.ClassDef)):
+    k += 1
+  tail = _tail_expr(body[k:])
+  if tail is None:
+    try:
+      _structured_body([dataflow.clone(x) for x in body], lambda v: ast.Pass())
+    except _NotStructured:
+      return None
+    return ('struct', body, None)
+  return ('expr', body[:k], tail, body[k:])
+
+
+def _bind(h, call, selfexpr, tag, stmts, result, taken=None):
+  """Instantiate helper statements/result at `call`: returns (pre_statements, statements, result) or None."""
+  a = h.node.args
+  params = [x.arg for x in a.posonlyargs + a.args]
+  kwonly = [x.arg for x in a.kwonlyargs]
+  binding = {}
+  if h.kind == 'method':
+    if selfexpr is None or not params:
+      return None
+    binding[params[0]] = selfexpr
+    params = params[1:]
+  elif h.kind == 'classmethod':
+    return None
+  dmap = {}
+  if a.defaults:
+    for p, d in zip((a.posonlyargs + a.args)[-len(a.defaults):], a.defaults):
+      dmap[p.arg] = d
+  for p, d in zip(a.kwonlyargs, a.kw_defaults):
+    if d is not None:
+      dmap[p.arg] = d
+  args = list(call.args)
+  if any(isinstance(x, ast.Starred) for x in args) or any(k.arg is None for k in call.keywords) or len(args) > len(params):
+    return None
+  kw = {k.arg: k.value for k in call.keywords}
+  if set(kw) - set(params) - set(kwonly):
+    return None
+  for i, p in enumerate(params + kwonly):
+    if i < len(args) and i < len(params):
+      v = args[i]
+    elif p in kw:
+      v = kw[p]
+    else:
+      v = dmap.get(p)
+    if v is None:
+      return None
+    binding[p] = v
+  assigned = set()
+  for body_st in stmts:
+    for s in walk_no_nested(body_st):
+      tg = []
+      if isinstance(s, ast.Assign):
+        tg = s.targets
+      elif isinstance(s, (ast.AugAssign, ast.AnnAssign, ast.For)):
+        tg = [s.target]
+      elif isinstance(s, ast.With):
+        tg = [i.optional_vars for i in s.items if i.optional_vars is not None]
+      elif isinstance(s, ast.NamedExpr):
+        tg = [s.target]
+      elif isinstance(s, (ast.ListComp, ast.SetComp, ast.GeneratorExp, ast.DictComp)):
+        continue
+      for t in tg:
+        for x in ast.walk(t):
+          if isinstance(x, ast.Name) and isinstance(x.ctx, ast.Store):
+            assigned.add(x.id)
+  pre = []
+  rename = {}
+  uses = {}
+  for body_st in list(stmts) + ([result] if result is not None else []):
+    for x in ast.walk(body_st):
+      if isinstance(x, ast.Name) and isinstance(x.ctx, ast.Load):
+        uses[x.id] = uses.get(x.id, 0) + 1
+  for p in list(binding):
+    if h.kind == 'method' and p == (a.posonlyargs + a.args)[0].arg:
+      continue
+    if p in assigned or (not _simple_arg(binding[p]) and (stmts or uses.get(p, 0) > 1)):
+      new = p if (taken is not None and p not in taken) else '%s__%s' % (p, tag)
+      pre.append(ast.Assign(targets=[ast.Name(id=new, ctx=ast.Store())], value=dataflow.clone(binding[p]),
+                            lineno=call.lineno, col_offset=0))
+      rename[p] = new
+      del binding[p]
+  for nm in assigned:
+    if nm not in rename:
+      # a helper local keeps its name unless the caller already uses that name
+      rename[nm] = nm if (taken is not None and nm not in taken) else '%s__%s' % (nm, tag)
+  if taken is not None:
+    taken.update(rename.values())
+
+  def sub(e):
+    if isinstance(e, ast.Name):
+      if e.id in rename:
+        return ast.Name(id=rename[e.id], ctx=e.ctx)
+      if e.id in binding and isinstance(e.ctx, ast.Load):
+        return dataflow.clone(binding[e.id])
+      return e
+    if isinstance(e, (ast.FunctionDef, ast.ClassDef)):
+      return e
+    return dataflow._map_children(e, sub)
+
+  out = [sub(dataflow.clone(s)) for s in stmts]
+  res = sub(dataflow.clone(result)) if result is not None else None
+  for s in pre + out:
+    for x in ast.walk(s):
+      if not hasattr(x, 'lineno') and isinstance(x, (ast.stmt, ast.expr)):
+        x.lineno = call.lineno
+        x.col_offset = 0
+  return pre, out, res
+
+
+def _unconditional_in(test, call):
+  """The call is evaluated whenever the test is (not behind a short-circuit / conditional / lambda)."""
+  p = getattr(call, '_fparent', None)
+  child = call
+  while p is not None and child is not test:
+    if isinstance(p, ast.BoolOp) and p.values[0] is not child:
+      return False
+    if isinstance(p, ast.IfExp) and p.test is not child:
+      return False
+    if isinstance(p, (ast.Lambda, ast.GeneratorExp, ast.ListComp, ast.SetComp, ast.DictComp)):
+      return False
+    if isinstance(p, ast.Compare) and len(p.comparators) > 1 and child is not p.left and child is not p.comparators[0]:
+      return False
+    child, p = p, getattr(p, '_fparent', None)
+  return child is test
+
+
+class _Flattener:
+
+  def __init__(self, repo, is_helper):
+    self.repo = repo
+    self.is_helper = is_helper
+    self.used = []
+
+  def callee(self, info, call):
+    """(helper FuncInfo, expression for its self or None) for a call made inside function `info`."""
+    fn = call.func
+    repo = self.repo
+    if isinstance(fn, ast.Name):
+      top = info
+      while top is not None:
+        if fn.id in top.nested:
+          return top.nested[fn.id], None
+        top = top.outer
+      q = '%s.%s' % (info.module.name, fn.id)
+      if q in repo.functions:
+        return repo.functions[q], None
+      r = repo.resolve_dotted(info.module, fn.id)
+      if r and r[0] == 'func' and r[1].cls is None:
+        return r[1], None
+      return None, None
+    if isinstance(fn, ast.Attribute) and isinstance(fn.value, ast.Name):
+      cls = info.cls
+      selfn = None
+      top = info
+      while top is not None:
+        if top.kind in ('method', 'getter', 'setter') and top.params:
+          selfn = top.params[0]
+        top = top.outer
+      if cls is not None and fn.attr in cls.methods:
+        h = cls.methods[fn.attr]
+        if fn.value.id == selfn and selfn is not None:
+          return h, ast.Name(id=selfn, ctx=ast.Load())
+        if fn.value.id == cls.name and h.kind == 'static':
+          return h, None
+      r = repo.resolve_dotted(info.module, dotted(fn))
+      if r and r[0] == 'func' and r[1].cls is None:
+        return r[1], None
+    return None, None
+
+  def flatten(self, f):
+    node = dataflow.clone(f.node)
+    _link(node, getattr(f.node, '_parent', None))
+    tmp = core.FuncInfo(f.module, node, f.cls, f.kind, f.outer)
+    changed_any = False
+    for _ in range(4):
+      self.changed = False
+      self.process_function(tmp)
+      if not self.changed:
+        break
+      changed_any = True
+      _link(node, getattr(f.node, '_parent', None))
+      tmp = core.FuncInfo(f.module, node, f.cls, f.kind, f.outer)
+    if not changed_any:
+      return False
+    ast.fix_missing_locations(node)
+    f.orig_node = f.node
+    f.node = node
+    f.nested = tmp.nested
+    for g in f.nested.values():
+      g.outer = f
+    f.flattened = sorted(set(self.used))
+    return True
+
+  @staticmethod
+  def stmt_only(shape):
+    """Branching helpers are inlined at statement level when possible (second pass handles the rest)."""
+    return False
+
+  def process_function(self, info):
+    top = info
+    while top.outer is not None and top.outer.node is not None and any(x is info.node for x in ast.walk(top.outer.node)):
+      top = top.outer
+    self.taken = {x.id for x in ast.walk(top.node) if isinstance(x, ast.Name)} | {a.arg for x in ast.walk(top.node) if isinstance(x, ast.arguments)
+                                                                                     for a in x.posonlyargs + x.args + x.kwonlyargs}
+    info.node.body = self.block(info.node.body, info)
+    for g in info.nested.values():
+      if not self.is_helper(g):
+        self.process_function(g)
+
+  # expression-level ---------------------------------------------------------------------------
+  def expr(self, e, info, depth=4):
+    """Replace calls to expression-shaped helpers inside e (in place where possible); returns the new root."""
+    if depth <= 0 or not isinstance(e, ast.AST):
+      return e
+
+    def walk(x):
+      if isinstance(x, (ast.FunctionDef, ast.ClassDef)):
+        return x
+      x = dataflow._map_children(x, walk)
+      if isinstance(x, ast.Call):
+        # spread *helper(...) star-arguments of tuple-returning helpers
+        new_args = []
+        for a_ in x.args:
+          if isinstance(a_, ast.Starred) and isinstance(a_.value, ast.Tuple):
+            new_args += list(a_.value.elts)
+            self.changed = True
+          else:
+            new_args.append(a_)
+        x.args = new_args
+        h, selfexpr = self.callee(info, x)
+        if h is not None and self.is_helper(h) and h.node is not info.node:
+          shape = helper_shape(h)
+          if shape and shape[0] == 'expr' and not shape[1] and not self.stmt_only(shape):
+            _counter[0] += 1
+            b = _bind(h, x, selfexpr, 'e%d' % _counter[0], [], shape[2], self.taken)
+            if b is not None and not b[0]:
+              self.changed = True
+              self.used.append(h.qualname)
+              return b[2]
+      return x
+    return walk(e)
+
+  # statement-level ------------------------------------------------------------------------------
+  def block(self, stmts, info):
+    out = []
+    for st in stmts:
+      if isinstance(st, (ast.FunctionDef, ast.ClassDef, ast.AsyncFunctionDef)):
+        out.append(st)
+        continue
+      for fld in ('body', 'orelse', 'finalbody'):
+        if hasattr(st, fld) and isinstance(getattr(st, fld), list):
+          setattr(st, fld, self.block(getattr(st, fld), info))
+      if isinstance(st, ast.Try):
+        for hd in st.handlers:
+          hd.body = self.block(hd.body, info)
+      # header expressions
+      heads = []
+      if isinstance(st, (ast.If, ast.While)):
+        st.test = self.expr(st.test, info)
+        heads = [('test', st.test)] if isinstance(st, ast.If) else []
+      elif isinstance(st, ast.For):
+        st.iter = self.expr(st.iter, info)
+        heads = [('iter', st.iter)]
+      elif isinstance(st, ast.With):
+        for it in st.items:
+          it.context_expr = self.expr(it.context_expr, info)
+      elif isinstance(st, (ast.Assign, ast.AugAssign, ast.AnnAssign, ast.Return, ast.Expr, ast.Raise, ast.Assert, ast.Delete)):
+        for fld, val in list(ast.iter_fields(st)):
+          if isinstance(val, ast.AST) and fld not in ('targets', 'target', 'op'):
+            if fld == 'value' and isinstance(st, (ast.Assign, ast.Return)) and isinstance(val, ast.Call):
+              h0, _ = self.callee(info, val)
+              sh0 = helper_shape(h0) if h0 is not None and self.is_helper(h0) and h0.node is not info.node else None
+              if sh0 and sh0[0] == 'expr' and isinstance(sh0[2], ast.IfExp):
+                # a branching helper as the whole right-hand side: inlined below, at statement level
+                val.args = [self.expr(a_, info) for a_ in val.args]
+                for k_ in val.keywords:
+                  k_.value = self.expr(k_.value, info)
+                continue
+            setattr(st, fld, self.expr(val, info))
+        if isinstance(st, (ast.Assign, ast.AugAssign, ast.AnnAssign, ast.Return, ast.Expr)) and getattr(st, 'value', None) is not None:
+          heads = [('value', st.value)]
+      pre_all = []
+      drop = False
+      for fld, root in heads:
+        for n in ast.walk(root):
+          for ch in ast.iter_child_nodes(n):
+            ch._fparent = n
+        root._fparent = None
+        for callnode in [c for c in ast.walk(root) if isinstance(c, ast.Call)]:
+          h, selfexpr = self.callee(info, callnode)
+          if h is None or not self.is_helper(h) or h.node is info.node:
+            continue
+          shape = helper_shape(h)
+          if shape is None:
+            continue
+          if not _unconditional_in(root, callnode):
+            continue
+          _counter[0] += 1
+          tag = 'h%d' % _counter[0]
+          kind, body, res = shape[:3]
+          if kind == 'expr' and root is callnode and isinstance(st, (ast.Assign, ast.Return)) and isinstance(res, ast.IfExp):
+            # branching helper whose call is the whole right-hand side: keep the branches as statements
+            b = _bind(h, callnode, selfexpr, tag, list(body) + list(shape[3]), None, self.taken)
+            if b is not None:
+              def make(v, st=st):
+                new = dataflow.clone(st)
+                new.value = v
+                return new
+              pre_all += b[0] + b[1][:len(body)] + _tail_stmts(b[1][len(body):], make)
+              drop = True
+              self.changed = True
+              self.used.append(h.qualname)
+              break
+          if kind == 'struct':
+            rname = '%s_result' % h.name.lstrip('_')
+            if rname in self.taken:
+              rname = '%s__%s' % (rname, tag)
+
+            def make(v, rname=rname, ln=callnode.lineno):
+              return ast.Assign(targets=[ast.Name(id=rname, ctx=ast.Store())], value=v, lineno=getattr(v, 'lineno', ln), col_offset=0)
+            sb = _structured_body([dataflow.clone(x) for x in body], make)
+            b = _bind(h, callnode, selfexpr, tag, sb, ast.Name(id=rname, ctx=ast.Load()), self.taken)
+            if b is None:
+              continue
+            pre_all += b[0] + b[1]
+            if root is callnode:
+              setattr(st, fld, b[2])
+              root = b[2]
+            else:
+              _replace(root, callnode, b[2])
+            self.changed = True
+            self.used.append(h.qualname)
+            continue
+          if kind in ('proc', 'gen'):
+            whole = isinstance(st, ast.Expr) and (st.value is callnode or (
+                kind == 'gen' and isinstance(st.value, ast.YieldFrom) and st.value.value is callnode))
+            if not whole or (kind == 'proc' and isinstance(st.value, ast.YieldFrom)):
+              continue
+            if kind == 'gen' and not isinstance(st.value, ast.YieldFrom):
+              continue
+            b = _bind(h, callnode, selfexpr, tag, body, None, self.taken)
+            if b is None:
+              continue
+            pre_all += b[0] + b[1]
+            drop = True
+            self.changed = True
+            self.used.append(h.qualname)
+            break
+          b = _bind(h, callnode, selfexpr, tag, body, res, self.taken)
+          if b is None:
+            continue
+          pre_all += b[0] + b[1]
+          if root is callnode:
+            setattr(st, fld, b[2])
+            root = b[2]
+          else:
+            _replace(root, callnode, b[2])
+          self.changed = True
+          self.used.append(h.qualname)
+      out += pre_all
+      if not drop:
+        out.append(st)
+    return out
+
+
+def _link(node, parent):
+  for n in ast.walk(node):
+    for ch in ast.iter_child_nodes(n):
+      ch._parent = n
+  node._parent = parent
+
+
+def flatten_repo(repo, pinned):
+  """Inline every function that is not in `pinned` into the pinned functions that call it. Returns the report
+  {anchor qualname: [helpers inlined]}."""
+  def is_helper(h):
+    return h.qualname not in pinned
+  done = {}
+
+  def all_funcs():
+    for f in list(repo.functions.values()):
+      yield f
+  for f in all_funcs():
+    if is_helper(f):
+      continue
+    fl = _Flattener(repo, is_helper)
+    if fl.flatten(f):
+      done[f.qualname] = f.flattened
+  return done
